@@ -275,7 +275,7 @@ def run_coincide(ctx, res, seed, acq, mode, steps, conf=None, oracles=None, deep
                                  'ops': S.ser_ops(h.ops[:at + 1]), 'oracle': key})
         if h.tr is not None:
             h.tr.close()
-            S.deep_check(ctx, res, h.tr)
+            S.deep_check(ctx, res, h.tr, honest=True)
         return h
 
 
@@ -348,7 +348,7 @@ def run(ctx):
         run_trace(ctx, res, rng.randrange(1 << 30), trace, tracer=(k % 10 == 0), conf=CONF_KE if k % 4 == 3 else CONF)
     res.extra['random_walks'] = walks
     res.sample({'trace': [list(map(str, s)) for s in trace]})
-    coincide_campaign(ctx, res)
+    coincide_campaign(ctx, res, deep=True)
     # an authentic peer that says unusual things: every handler branch the honest schedules do not take is replayed on the model
     import rogue
     rogue.campaign(ctx, res, ctx.scale(8, 150), 50)
